@@ -78,7 +78,21 @@ func vStubReadFileHTTP(fsys fs.FS, name string) ([]byte, error) { return []byte{
 // vStubGenLiveSegHTTP: the lookup / availability half of genLiveSegment (the real createOutSeg); the media
 // rewriting half is verified by vLiveSeg (C01.liveseg.*).
 func vStubGenLiveSegHTTP(log *slog.Logger, vodFS fs.FS, a *asset, cfg *ResponseConfig, segmentPart string, nowMS int, isLast bool) (segOut, error) {
-	return createOutSeg(vodFS, a, cfg, segmentPart, nowMS)
+	so, err := createOutSeg(vodFS, a, cfg, segmentPart, nowMS)
+	if err == nil && vHTTPChunked && !cfg.AvailabilityTimeCompleteFlag && so.seg == nil {
+		so.seg = &mp4.MediaSegment{} // chunked delivery works on the decoded segment (chunking itself: vH_C09_*)
+	}
+	return so, err
+}
+
+// set by the chunked C04 harness only: elsewhere a chunked request that gets as far as the segment generator ends
+// in the handler's "no segment data" answer under symbolic execution (natively the real chunker runs)
+var vHTTPChunked bool
+
+func vStubUnixMSHTTP() int { return 0 }
+
+func vStubChunkSegmentNone(init *mp4.InitSegment, seg *mp4.MediaSegment, segMeta segMeta, chunkDur int) ([]chunk, error) {
+	return nil, nil
 }
 
 // vStubCreateAudioSegNil stands in for createAudioSeg (file reads + mp4 decoding). It keeps the first thing the real
@@ -127,6 +141,8 @@ func init() {
 	vHarnesses["vH_HTTP_seg_nr_testpic2s_V300_atoInf"] = vH_HTTP_seg_nr_testpic2s_V300_atoInf
 	vHarnesses["vH_HTTP_seg_nr_testpic2s_A48_atoInf"] = vH_HTTP_seg_nr_testpic2s_A48_atoInf
 	vHarnesses["vH_HTTP_seg_nr_alt_V300"] = vH_HTTP_seg_nr_alt_V300
+	vHarnesses["vH_HTTP_seg_nr_testpic2s_V300_chunked"] = vH_HTTP_seg_nr_testpic2s_V300_chunked
+	vHarnesses["vH_HTTP_seg_nr_testpic2s_A48_chunked"] = vH_HTTP_seg_nr_testpic2s_A48_chunked
 }
 
 func vH_HTTP_seg_nr_testpic2s_V300()        { vHTTPSeg(vAsset_testpic_2s(), "V300", 0, 0) }
@@ -138,11 +154,19 @@ func vH_HTTP_seg_nr_testpic2s_V300_atoInf() { vHTTPSeg(vAsset_testpic_2s(), "V30
 func vH_HTTP_seg_nr_testpic2s_A48_atoInf()  { vHTTPSeg(vAsset_testpic_2s(), "A48", 0, 1) }
 func vH_HTTP_seg_nr_alt_V300()              { vHTTPSeg(vAsset_testpic_alt_seg_dur_stl(), "V300", 0, 0) }
 
-// mode: 0 $Number$, 1 SegmentTimeline $Time$, 2 SegmentTimeline $Number$.  atoMode: 0 none, 1 ato_inf.
+func vH_HTTP_seg_nr_testpic2s_V300_chunked() { vHTTPSeg(vAsset_testpic_2s(), "V300", 0, 2) }
+func vH_HTTP_seg_nr_testpic2s_A48_chunked()  { vHTTPSeg(vAsset_testpic_2s(), "A48", 0, 2) }
+
+// mode: 0 $Number$, 1 SegmentTimeline $Time$, 2 SegmentTimeline $Number$.
+// atoMode: 0 none, 1 ato_inf, 2 low-latency chunked delivery (ato_1/chunkdur_0.5).
 func vHTTPSeg(a *asset, repID string, mode, atoMode int) {
 	vPrepareRegexps(a)
 	rep := a.Reps[repID]
 	ref := a.refRep
+	vHTTPChunked = atoMode == 2
+	if atoMode == 2 {
+		vLoadInit(rep) // the chunker needs the init segment (natively the real one)
+	}
 	startNr := vInt("startNr", 0, 1<<20)
 	startS := vInt("startS", 0, 1<<32-1)
 	tsbd := vInt("tsbd", 0, 172800)
@@ -173,8 +197,13 @@ func vHTTPSeg(a *asset, repID string, mode, atoMode int) {
 	case 2:
 		opts = "segtimelinenr_1/"
 	}
-	if atoMode == 1 {
+	atoMS := 0
+	switch atoMode {
+	case 1:
 		opts += "ato_inf/"
+	case 2:
+		opts += "ato_1/chunkdur_0.5/"
+		atoMS = 1000
 	}
 	media := strings.ReplaceAll(strings.ReplaceAll(rep.MediaURI, "$Number$", "%d"), "$Time$", "%d")
 	path := vStrf("/livesim2/start_%d/snr_%d/tsbd_%d/"+opts+a.AssetPath+"/"+media, startS, startNr, tsbd, segID)
@@ -182,10 +211,10 @@ func vHTTPSeg(a *asset, repID string, mode, atoMode int) {
 
 	s := vHTTPServer(a)
 	w := vHTTPGet(s, path, now)
-	vAssert("C04.http.answered", w.status != 0)
+	vAssert("C04.http.answered", w.status != 0 || atoMode == 2)
 
 	// --- oracle (exact, ato 0): A = AST + segment end
-	lhs := (now - 1000*startS) * refTs
+	lhs := (now - 1000*startS + atoMS) * refTs
 	rhs := 1000 * endTicks
 	switch {
 	case now < 1000*startS:
@@ -196,11 +225,21 @@ func vHTTPSeg(a *asset, repID string, mode, atoMode int) {
 		vAssert("C04.http.below-startnr-404", w.status == 404)
 	case atoMode == 1:
 		vAssert("C04.http.inf-available-from-start", w.status == 200)
+	case atoMode == 2 && lhs+refTs > rhs && lhs < rhs+refTs:
+		// within 1 ms of the availability instant with a fractional-second float offset: either side is acceptable
+		vAssert("C04.http.chunked-boundary", w.status == 425 || w.status == 200 || w.status == 0)
 	case lhs < rhs:
 		vAssert("C04.http.too-early-425", w.status == 425)
 		d := vBodyMS(w.body)
 		vAssert("C04.http.body-ms-lower", (d+1)*refTs >= rhs-lhs)
 		vAssert("C04.http.body-ms-upper", (d-1)*refTs <= rhs-lhs)
+	case atoMode == 2:
+		// chunked mode: the availability decision is the same, the body is produced by the chunk writer (status 200
+		// once something is written; under symbolic execution the chunker is stubbed and nothing is written)
+		vAssert("C04.http.chunked-available-or-gone", w.status == 200 || w.status == 0 || w.status == 410)
+		if lhs <= rhs+1000*tsbd*refTs {
+			vAssert("C04.http.chunked-not-gone-within-tsbd", w.status != 410)
+		}
 	case lhs <= rhs+1000*tsbd*refTs:
 		vAssert("C04.http.available-200", w.status == 200)
 	default:
@@ -230,8 +269,8 @@ var vURLKeys = []vURLKey{
 	{"ato", 1, nil}, {"ltgt", 0, nil}, {"spd", 0, nil}, {"sidx", 2, nil}, {"segtimelineloss", 2, nil}, {"chunkdur", 1, nil},
 	{"timesubsstpp", 3, []string{"en", "en,sv", ""}}, {"timesubswvtt", 3, []string{"en", "en,sv", ""}},
 	{"timesubsdur", 0, nil}, {"timesubsreg", 0, nil},
-	{"statuscode", 3, []string{"[{cycle:30,rsq:0,code:404}]", "[{cycle:30}]", "[]", "", "[{x:1}]", "[{cycle:30,rsq:0,code:404,rep:V300}]", "[{cycle}]", "abc"}},
-	{"traffic", 3, []string{"u10d10", "", "5", "u0", "u10,d5u5", "x"}},
+	{"statuscode", 3, []string{"[{cycle:30,rsq:0,code:404}]", "[{cycle:30}]", "[]", "", "[{x:1}]", "[{cycle:30,rsq:0,code:404,rep:V300}]", "[{cycle}]", "abc", "%20%20%20%20", "[+{+}", "[%20%20]", "[{cycle:30,+rsq:0,+code:404}]"}},
+	{"traffic", 3, []string{"u10d10", "", "5", "u0", "u10,d5u5", "x", "u1+d1", "%75%31"}},
 	{"drm", 3, []string{"xyz", ""}}, {"eccp", 3, []string{"cbcs", "cenc", "xyz", ""}},
 	{"patch", 0, nil},
 	{"annexI", 3, []string{"a=1", "a", "", "a=1,b=2", "a=1=2"}},
@@ -269,7 +308,7 @@ func vURLParamFrom(tag string, keys []int) (part string, malformed bool, key str
 		if k.key == "ato" {
 			nl++
 		}
-		c := vConc(vInt(tag+"_cls", 0, nl))
+		c := vConc(vInt(tag+"_fcls_"+k.key, 0, nl))
 		if c == 0 {
 			// float -> int conversions of out-of-range values are implementation-defined in Go: numbers up to 2^40
 			return vStrf(k.key+"_%d/", vInt(tag+"_fnum", -(1<<40), 1<<40)), false, k.key
@@ -279,7 +318,8 @@ func vURLParamFrom(tag string, keys []int) (part string, malformed bool, key str
 	case 2:
 		return k.key + "_1/", false, k.key
 	}
-	c := vConc(vInt(tag+"_cls", 0, len(k.lits)-1))
+	// (one input name per key: the ranges differ)
+	c := vConc(vInt(tag+"_lcls_"+k.key, 0, len(k.lits)-1))
 	return k.key + "_" + k.lits[c] + "/", false, k.key
 }
 
@@ -321,6 +361,9 @@ var vBadParams = []string{"start_abc/", "tsbd_/", "ato_x/"}
 func vC08URL(nParams, target int) {
 	a := vAsset_testpic_2s()
 	vPrepareRegexps(a)
+	vLoadInit(a.Reps["V300"]) // chunked delivery (chunkdur_X) needs the init segments (natively the real ones)
+	vLoadInit(a.Reps["A48"])
+	vHTTPChunked = false
 	now := vInt("now1", 0, 1<<42)
 	segID := vInt("segID", 0, 1<<30) // later segments: 64-bit overflow of time x timescale (outside every claim)
 	var mpdKeys []int
